@@ -53,7 +53,7 @@ def _run(exe, cases):
         if not chunk:
             return 0, "", "", chunk
         text = "".join("%s %s %s\n" % (cid, mode, base64.b64encode(t.encode("utf-8", "surrogateescape")).decode()) for cid, mode, t in chunk)
-        rc, out, err, _ = core.run_exe(exe, ["batch"], stdin_text=text, timeout=900)
+        rc, out, err, _ = core.run_exe(exe, ["batch"], stdin_text=text, timeout=900, env=C08.ABORT_ENV)
         return rc, out, err, chunk
 
     res, crashes = {}, []
@@ -327,10 +327,18 @@ def run(ctx):
             bad = "new fields %s" % sorted(set(use["F"]) - set(ref["F"]))[:3]
         if not bad:
             other = lambda lst: sorted((p, msg) for p, msg in lst if p != path)  # noqa: E731
-            if other(use["E"]) != other(ref["E"]) or other(use["W"]) != other(ref["W"]):
-                extra = [x for x in other(use["E"]) + other(use["W"]) if x not in other(ref["E"]) + other(ref["W"])]
+            # a diagnostic that appears outside the faulted block is attributed to another block; one that disappears (an analysis
+            # that can no longer be made, e.g. the urgent-edge warnings once the synchronisation is ill-typed) is not
+            refd = other(ref["E"]) + other(ref["W"])
+            extra = []
+            for x in other(use["E"]) + other(use["W"]):
+                if x in refd:
+                    refd.remove(x)
+                else:
+                    extra.append(x)
+            if extra:
                 bad = "diagnostic attributed to another block: %s (faulted block %s)" % (extra[:2], path)
-                diagkey[cid] = extra[0][1].strip('"').split(":")[0] if extra else "missing"
+                diagkey[cid] = extra[0][1].strip('"').split(":")[0]
         if bad:
             disturbed.append((cid, bad))
     cov["correspondence_cases"] = n_cmp
